@@ -146,8 +146,8 @@ type caseSpec struct {
 	Outcome   outcomeSpec `json:"outcome"`
 	Pos       string      `json:"pos"` // before | between | after
 	BadResp   bool        `json:"bad_resp"`
-	MD        bool        `json:"md,omitempty"`  // handler also sets header and trailer metadata
-	Cut       *cutSpec    `json:"cut,omitempty"` // replay the recorded reply of this case cut short (see cut.go)
+	MD        bool        `json:"md,omitempty"`   // handler also sets header and trailer metadata
+	Cut       *cutSpec    `json:"cut,omitempty"`  // replay the recorded reply of this case cut short (see cut.go)
 	Opts      *optSpec    `json:"opts,omitempty"` // the caller passes these call options (see opts.go)
 }
 
